@@ -261,12 +261,15 @@ def run(ctx):
     for (nmsgs, faults, depth) in ctx.pick([(1, 1, 9)], [(1, 2, 12), (2, 1, 10)]):
         cfg = {"faults": faults, "nmsgs": nmsgs}
 
-        def expand(hist, cfg=cfg, nmsgs=nmsgs):
+        def expand(hist, cfg=cfg, nmsgs=nmsgs, depth=depth):
             w = build(cfg, hist)
             out = []
-            cl = build(cfg, hist).closure()
-            if cl:
-                out.append((None, None, cl))
+            # passes are always enabled here, so there are no terminal states: the fair closure is evaluated where no
+            # frame is in flight (quiescent network) and at the depth bound
+            if not w.net.flight or len(hist) >= depth - 1:
+                cl = build(cfg, hist).closure()
+                if cl:
+                    out.append((None, None, cl))
             for ev in w.enabled(nmsgs):
                 q = build(cfg, hist + [ev])
                 out.append((ev, None if q.viol else q.canon(), list(q.viol)))
